@@ -637,3 +637,78 @@ class TreeCompiler:
                 return f"pos:{a.get('name')}:{a.get('x_relative')}+{a.get('x_offset')}:{a.get('y_relative')}+{a.get('y_offset')}"
             return f"<{n}>"
         return repr(p)
+
+
+# --------------------------------------------------------------------------- whole compiler on source text
+
+
+class WholeCompiler:
+    """Source text -> the grammar's parse tree (engine.g4) -> RoutineVisitor / StatementVisitor / handlers / post-passes, all interpreted.
+
+    Nothing of the compiler is mirrored by hand: visitor dispatch is the parser runtime's protocol (absint), accessor shapes come from the
+    grammar's element frequencies, and the steps after the visitor are those of ExplorerScriptSsbCompiler.compile() read from its source."""
+
+    def __init__(self, repo: Repo, fold: Any, grammar: Any) -> None:
+        self.repo = repo
+        self.fold = fold
+        self.g = grammar
+        self.I = Interp(repo, fold)
+        self._freq: dict[str, dict[str, int]] = {}
+        f = repo.find_class
+        self.cls = {n: f(n) for n in ("RoutineVisitor", "LabelFinalizer", "OpsLabelJumpToRemover")}
+
+    def freq(self, rule: str) -> dict[str, int]:
+        if rule not in self._freq:
+            self._freq[rule] = self.g.element_frequencies(rule)
+        return self._freq[rule]
+
+    def to_ctx(self, node: Any, text: str, line_starts: list[int]) -> ACtx:
+        import bisect
+
+        def pos(p: int) -> tuple[int, int]:
+            i = bisect.bisect_right(line_starts, p) - 1
+            return i + 1, p - line_starts[i]
+
+        def conv(n: Any) -> Any:
+            if hasattr(n, "rule"):
+                c = ACtx(n.rule)
+                c.freq = self.freq(n.rule)
+                c.children = [conv(k) for k in n.children]
+                ft, lt = n.first_token(), n.last_token()
+                if ft is not None:
+                    c.line, c.column = pos(ft.pos)
+                    c.stop_line, c.stop_column = pos(lt.pos)
+                return c
+            ln, col = pos(n.pos)
+            return Tok(n.text, n.type, ln, col)
+        return conv(node)
+
+    def parse(self, text: str) -> ACtx:
+        tree = self.g.parse_text("start", text)
+        if tree is None:
+            raise SpecError(f"source does not parse: {text[:80]}")
+        starts = [0] + [i + 1 for i, ch in enumerate(text) if ch == "\n"]
+        return self.to_ctx(tree, text, starts)
+
+    def compile(self, text: str, perf: str = "$PERF") -> dict[str, Any]:
+        """{routine_ops, routine_infos, named_coroutines} as compile() leaves them; PyExc for the exception compile() raises."""
+        I = self.I
+        I.steps = 0
+        tree = self.parse(text)
+        rv = I.new(self.cls["RoutineVisitor"], perf, {})
+        try:
+            I.visit_dispatch(rv, tree)
+        except PyExc as e:
+            if e.cls_name == "AssertionError":
+                raise PyExc("ValueError", e.msg, e.where)
+            raise
+        routine_ops = rv.attrs["routine_ops"]
+        ordered = self.repo.func(f"{UTILS}:routine_op_offsets_are_ordered")
+        if not I.truth(I.call_func(ordered, [routine_ops], {})):
+            raise PyExc("SsbCompilerError", "The routines must be defined in the order of their IDs.")
+        strip = self.repo.func(f"{UTILS}:strip_last_label")
+        stripped = I.call_func(strip, [routine_ops], {})
+        fin = I.new(self.cls["LabelFinalizer"], stripped)
+        rem = I.new(self.cls["OpsLabelJumpToRemover"], fin.attrs["routines"], fin.attrs["label_offsets"])
+        return {"routine_ops": rem.attrs["routines"], "routine_infos": rv.attrs["routine_infos"], "named_coroutines": rv.attrs["named_coroutines"],
+                "visitor": rv}
